@@ -229,6 +229,7 @@ func gen(t *rapid.T) Case {
 	o := ymodel.DefaultOpts()
 	o.RPC = rapid.Bool().Draw(t, "with-rpc")
 	o.Choices = rapid.Bool().Draw(t, "with-choices")
+	o.Posix = true // posix-pattern statements of openconfig-extensions in string types
 	set, _ := schema.Generate(t, o)
 	c := Case{Set: set}
 	if rapid.IntRange(0, 5).Draw(t, "plant") == 0 {
